@@ -18,7 +18,7 @@ func storeType(w *World, store string) types.Type {
 	if fn == nil {
 		return nil
 	}
-	e := w.engine(0, 1)
+	e := w.engine(3, 1)
 	for _, s := range e.Explore(fn) {
 		if len(s.Rets) == 1 && s.Rets[0].Kind == "alloc" && s.Rets[0].Typ != nil {
 			return s.Rets[0].Typ
@@ -134,12 +134,31 @@ func epochAt(s Summary, seq int) int {
 
 // epochOf returns the lock epoch of the first read of ck[key] on the path (the snapshot taken when the write operation was opened).
 func firstReadEpoch(s Summary, ck, key *Term) int {
+	best := -1
 	for _, f := range s.Facts {
-		if f.T.Kind == "lookup" && f.T.Name == "ok" && f.T.Args[0] == ck && f.T.Args[1] == key {
-			return f.T.Idx
+		anySub(f.T, func(t *Term) bool {
+			if t.Kind == "lookup" && len(t.Args) == 2 && t.Args[0] == ck && t.Args[1] == key && (best < 0 || t.Idx < best) {
+				best = t.Idx
+			}
+			return false
+		})
+		if best >= 0 {
+			return best
 		}
 	}
-	return -1
+	return best
+}
+
+// mapPresence: what the path established about ck[key] as of lock epoch ep — by the comma-ok result or, for maps of
+// pointers (entries are never nil: checked where the map is written), by the nil-ness of the value.
+func mapPresence(s Summary, ck, key *Term, ep int) (known, present bool) {
+	if k, v, _ := boolFact(s, mk("lookup", "ok", ep, nil, ck, key)); k {
+		return true, v
+	}
+	if k, isNil, _ := nilFact(s, mk("lookup", "val", ep, nil, ck, key)); k {
+		return true, !isNil
+	}
+	return false, false
 }
 
 // C05.c COMPARE-AND-SET on Update ∘ inmemory: the map is written only if the value re-read inside the writing critical
@@ -171,8 +190,8 @@ func ruleCompareAndSet(w *World, r *Run, rule string) {
 				r.Fail(rule, fnUpdate+" ∘ inmemory | write keyed by the request's log ID", w.pos(ev.Pos), "the map is written under "+short(ev.Args[0].String())+", not under the request's log ID")
 				continue
 			}
-			if !anySub(ev.Args[1], func(t *Term) bool { return t.Kind == "call" && t.Name == cSign && t.Idx == 1 }) {
-				r.Fail(rule, fnUpdate+" ∘ inmemory | value written is the cosigned checkpoint", w.pos(ev.Pos), "the map receives "+short(ev.Args[1].String()))
+			if !anySub(structArg(ev, ev.Args[1]), func(t *Term) bool { return t.Kind == "call" && t.Name == cSign && t.Idx == 1 }) {
+				r.Fail(rule, fnUpdate+" ∘ inmemory | value written is the cosigned checkpoint", w.pos(ev.Pos), "the map receives "+short(structArg(ev, ev.Args[1]).String()))
 				continue
 			}
 			e1 := firstReadEpoch(s, ck, c.logID)
@@ -184,9 +203,15 @@ func ruleCompareAndSet(w *World, r *Run, rule string) {
 				}
 			}
 			for _, f := range s.Facts {
-				if f.Seq < ev.Seq && f.T.Kind == "lookup" && f.T.Name == "ok" && f.T.Args[0] == ck && f.T.Args[1] == c.logID && f.T.Idx > e1 {
-					e2 = f.T.Idx
+				if f.Seq >= ev.Seq {
+					continue
 				}
+				anySub(f.T, func(t *Term) bool {
+					if t.Kind == "lookup" && len(t.Args) == 2 && t.Args[0] == ck && t.Args[1] == c.logID && t.Idx > e1 {
+						e2 = t.Idx
+					}
+					return false
+				})
 			}
 			// the re-read must belong to the critical section in which the write happens
 			if eu := epochAt(s, ev.Seq); e2 > e1 && e2 != eu {
@@ -196,10 +221,12 @@ func ruleCompareAndSet(w *World, r *Run, rule string) {
 				r.Fail(rule, key, w.pos(ev.Pos), "the map is written without re-reading the current value for the same key inside the writing critical section (check-then-act across critical sections: a concurrent accepted update would be lost); path: "+pathString(c.eng, s))
 				continue
 			}
-			okT := func(ep int) *Term { return mk("lookup", "ok", ep, nil, ck, c.logID) }
 			valT := func(ep int) *Term { return mk("lookup", "val", ep, nil, ck, c.logID) }
-			k1, then, _ := boolFact(s, okT(e1))
-			k2, now, _ := boolFact(s, okT(e2))
+			k1, then := mapPresence(s, ck, c.logID, e1)
+			k2, now := mapPresence(s, ck, c.logID, e2)
+			if _, isPtr := ev.Args[1].Typ.(*types.Pointer); isPtr && !neverNil(ev.Args[1]) {
+				r.Fail(rule, fnUpdate+" ∘ inmemory | entries of a pointer-valued checkpoint map are never nil", w.pos(ev.Pos), "the map can receive a nil entry, which readers take for 'no checkpoint'")
+			}
 			good := k1 && k2 && then == now
 			why := "the write does not depend on whether the snapshot and the current state agree about the log having a checkpoint"
 			if good && now {
@@ -298,7 +325,7 @@ func ruleNotFoundExact(w *World, r *Run, rule string) {
 				case "inmemory":
 					if ck != nil {
 						e1 := firstReadEpoch(s, ck, c.logID)
-						if k, v, _ := boolFact(s, mk("lookup", "ok", e1, nil, ck, c.logID)); e1 >= 0 && k && !v {
+						if k, v := mapPresence(s, ck, c.logID, e1); e1 >= 0 && k && !v {
 							absent = true
 						}
 					}
@@ -333,7 +360,7 @@ func ruleNotFoundExact(w *World, r *Run, rule string) {
 				case "inmemory":
 					if ck != nil {
 						e1 := firstReadEpoch(s, ck, g.logID)
-						if k, v, _ := boolFact(s, mk("lookup", "ok", e1, nil, ck, g.logID)); e1 >= 0 && k && !v {
+						if k, v := mapPresence(s, ck, g.logID, e1); e1 >= 0 && k && !v {
 							absent = true
 						}
 					}
